@@ -23,7 +23,7 @@ vars == <<l, cfg, regs, hist, bad>>
 
 DefaultCfg == [precision |-> 100, mode |-> "HalfEven", lowThr |-> 5, highThr |-> 15,
                maxPad |-> 1000, serdeLimit |-> 150000, profile |-> "?"]
-EmptyHist == [hash |-> <<>>]
+EmptyHist == [hash |-> <<>>, div |-> <<>>, inv |-> <<>>]
 
 Init == l = 1 /\ cfg = DefaultCfg /\ regs = <<>> /\ hist = EmptyHist /\ bad = <<>>
 
@@ -77,6 +77,11 @@ Verdict(e) ==
                                IF "radix" \in DOMAIN e THEN e.radix ELSE 10,
                                IF "utf8" \in DOMAIN e THEN e.utf8 ELSE TRUE, e.r)
     [] op = "fmt" -> FormatEventOK(e, IF "N" \in DOMAIN e THEN Arg(e.a) ELSE DZero, WArg(e.a), cfg)
+    [] op = "div" /\ "bits" \in DOMAIN e.a ->          \* float numerator: only the zero-divisor rule is specified here
+         IF Arg(e.b).d = <<>> THEN Chk(IsPanic(e.r), "zero-divisor-must-panic") ELSE OK
+    [] op = "div" -> LET v == DivOK(Arg(e.a), Arg(e.b), cfg.precision, e.r)
+                     IN IF v = OK THEN DivAgreeOK(hist.div, Arg(e.a), Arg(e.b), e.r) ELSE v
+    [] op = "rem" -> RemOK(Arg(e.a), Arg(e.b), e.r)
     [] OTHER -> Bad("unknown-op")
 
 Step ==
@@ -95,7 +100,9 @@ Step ==
      THEN UNCHANGED <<cfg, regs, hist, bad>>
      ELSE LET v == Verdict(e) IN
           /\ bad' = IF v = OK THEN bad ELSE Append(bad, <<l, v>>)
-          /\ hist' = IF e.op = "hash" THEN [hist EXCEPT !.hash = HashRemember(hist.hash, WArg(e.a), e.r)] ELSE hist
+          /\ hist' = IF e.op = "hash" THEN [hist EXCEPT !.hash = HashRemember(hist.hash, WArg(e.a), e.r)]
+                      ELSE IF e.op = "div" /\ "bits" \notin DOMAIN e.a THEN [hist EXCEPT !.div = DivRemember(hist.div, Arg(e.a), Arg(e.b), e.r)]
+                      ELSE hist
           /\ UNCHANGED <<cfg, regs>>
 
 Next == Step
